@@ -85,9 +85,16 @@ def handle (op : String) (j : Json) : Option Json :=
     -- programs that carry an expected manifestation (`"expect"`) must also produce exactly that
     let base : List (String × Json) :=
       [("tracked_leaked", toJson (0 : Nat)), ("pool_leaked", toJson (0 : Nat)), ("panic", toJson false)]
+    -- programs that declare how the evaluation must end (`"class"`: ok / error class) must end so
+    let base := base ++ (match str? j "class" with | some c => [("class", Json.str c)] | none => [])
     match str? j "expect" with
     | some e => some (obj [("spec", obj (base ++ [("result", .str e)]))])
     | none => some (obj [("spec", obj base)])
+  | "gc.coverage" =>
+    -- the harness lists the kinds of object core / array representation / thunk / builtin the
+    -- evaluator source declares that no program of the pool cycles through: there must be none
+    -- (a tie of the pool to the source, not a statement about the implementation)
+    some (obj [("model", obj [("unreached", .arr #[])])])
   | _ => none
 
 end JrsVerif.Drv.C18
